@@ -627,6 +627,11 @@ static size_t COVER_ctx_init(COVER_ctx_t *ctx, const void *samplesBuffer,
     DISPLAYLEVEL(1, "Total number of testing samples is %u and is invalid.", nbTestSamples);
     return ERROR(srcSize_wrong);
   }
+  /* The training part must hold at least one dmer : its size is what gets subtracted below */
+  if (trainingSamplesSize < MAX(d, sizeof(U64))) {
+    DISPLAYLEVEL(1, "Training samples are too small (%u bytes)\n", (unsigned)trainingSamplesSize);
+    return ERROR(srcSize_wrong);
+  }
   /* Zero the context */
   memset(ctx, 0, sizeof(*ctx));
   DISPLAYLEVEL(2, "Training on %u samples of total size %u\n", nbTrainSamples,
